@@ -1245,6 +1245,27 @@ impl NodeMut for XmlDocument {
         Ok(XmlNode::from(value))
     }
 
+    fn replace_child(&self, new_child: XmlNode, old_child: &XmlNode) -> error::Result<XmlNode> {
+        let element = |v: &XmlNode| v.node_type() == NodeType::Element;
+        if element(&new_child) && element(old_child) && new_child.id() != old_child.id() {
+            // The document element is replaced by another element: the old one has to leave
+            // first, because a document never holds two elements. It is put back if the new
+            // one is refused.
+            let next = old_child.next_sibling();
+            let removed = self.remove_child(old_child)?;
+            return match self.insert_before(new_child, next.as_ref()) {
+                Ok(_) => Ok(removed),
+                Err(e) => {
+                    self.insert_before(removed, next.as_ref())?;
+                    Err(e)
+                }
+            };
+        }
+
+        self.insert_before(new_child, Some(old_child))?;
+        self.remove_child(old_child)
+    }
+
     fn remove_child(&self, old_child: &XmlNode) -> error::Result<XmlNode> {
         if !same_document(&Some(self.clone()), &old_child.owner_document()) {
             return Err(error::DomException::WrongDocumentErr)?;
